@@ -32,7 +32,7 @@ P = {
   note="Trusted: as C01. Search is not proof for clause 3 and for clause 2 beyond routed edges. Known finding F5 attributed by mechanism.",
   tech=TECH + " (tie H + G2); exact-arithmetic search for clauses 2 (general) and 3", ref="DESIGN.md 6 C04"),
  "C18": dict(
-  text="Partial (nesting clause is search only). Theorems for all inputs: splitRing conserves directed edges and signed area (up to the documented whole-ring reversal), dedupeInnersOuters deletes only cancelling shell/hole pairs, per-level assembly conserves edges modulo such pairs, kmpDeduplicate returns a subsequence, is the identity on repeat-free chains, and ON THE CLASS OF THE PROPERTY (no centre at three positions) never fails and conserves directed edges modulo cancelling pairs (C18_kmp_conserves_le2, every ring, any length); the class boundary is real (F5 at four visits). Oracle on the implementation: routed-run test, nesting, exact signed-area accounting, class decided by the implementation's own routing.",
+  text="Partial (nesting clause is search only). Theorems for all inputs: splitRing conserves directed edges and signed area (up to the documented whole-ring reversal), dedupeInnersOuters deletes only cancelling shell/hole pairs, per-level assembly conserves edges modulo such pairs, kmpDeduplicate returns a subsequence, is the identity on repeat-free chains, and ON THE CLASS OF THE PROPERTY (no centre at three positions) never fails and conserves directed edges modulo cancelling pairs (C18_kmp_conserves_le2, every ring, any length); the class boundary is real (F5 at four visits). END TO END on the class, for snapLevel and every requested level of snapPolygon, all flag combinations (C18_end_to_end_edges, C18_snapPolygon_edges_are_routed_steps, C18_end_to_end_area, C18_snapPolygon_area): every cyclic edge of every returned ring is, up to direction, an edge of a routed-and-cleaned ring (the argument of kmpDeduplicate) and hence a step between consecutive centres of one routed edge (no run is merged); the doubled signed area of the returned geometry is the sum over the input rings of the area of their routed-and-cleaned rings, a ring counting negatively only under the documented whole-ring role swap and a hole that found no shell being returned as a shell; the plain equation is refuted for invalid input rings (C18_end_to_end_area_plain_refuted), and for valid polygons it additionally needs topology preservation (C01), which stays search only. Oracle on the implementation: routed-run test, nesting, exact signed-area accounting, class decided by the implementation's own routing.",
   note="Trusted: as C01; class membership via the verif hook.",
   tech=TECH + " (tie H incl. exhaustive chains); exact-arithmetic search for the nesting clause", ref="DESIGN.md 6 C18"),
  "C05": dict(
